@@ -83,7 +83,8 @@ def R(s):
 
 
 def O(**kw):
-    o = {"opt": False, "dep": None, "neg": False, "def": None, "range": None, "options": None, "str": False}
+    o = {"opt": False, "dep": None, "neg": False, "def": None, "range": None, "options": None, "str": False,
+         "env": None, "inherit": False}
     o.update(kw)
     return o
 
@@ -133,6 +134,10 @@ def render_tag(f):
             segs.append("options=" + "|".join(o["options"]))
         if o["str"]:
             segs.append("string")
+        if o.get("env"):
+            segs.append("env=" + o["env"])
+        if o.get("inherit"):
+            segs.append("inherit")
     return ",".join(segs)
 
 
@@ -1085,19 +1090,47 @@ class ShapeGen:
     def leaf_struct(self):
         rng = self.rng
         r = rng.random()
-        if r < 0.3:
+        if r < 0.22:
             return Nm("Node")
-        if r < 0.55:
+        if r < 0.42:
             return St(F("Host", P("string")), F("logLevel", P("string"), O(**{"def": "info"})),
                       F("MaxConns", P("int"), O(opt=True)))
-        if r < 0.75:   # embedded members, incl. a pointer to a declared struct
+        if r < 0.56:   # embedded members, incl. a pointer to a declared struct
             return St(F("ID", Nm("MyInt")), E([], name="Inner", eptr=rng.random() < 0.5),
                       E([F("ExtraKey", P("bool"), O(opt=True))]))
-        if r < 0.9:    # wide leaves inside
+        if r < 0.7:    # wide leaves inside
             return St(F("Timeout", P("dur")), F("Ratio", P("num"), O(opt=True)), F("Meta", Mp(P("any")), O(opt=True)),
                       F("Blob", P("bytes"), O(opt=True)), F("Kind", Nm("MyStr"), O(opt=True)))
-        return St(F("Sub", St(F("DeepKey", Nm("Alias")), F("W", Nm("MyF64"), O(opt=True)))),
-                  F("On", Nm("MyBool"), O(opt=True)))
+        if r < 0.78:
+            return St(F("Sub", St(F("DeepKey", Nm("Alias")), F("W", Nm("MyF64"), O(opt=True)))),
+                      F("On", Nm("MyBool"), O(opt=True)))
+        return self.leaf_lexemes()
+
+    def leaf_lexemes(self):
+        """names that some layer may special-case: the words of the tag grammar as keys, keys with - _ . ,
+        keys differing from their neighbours only by such a character; members whose value may come from the
+        environment (`env=`), from the enclosing object (`inherit`), or from a default list"""
+        rng = self.rng
+        r = rng.random()
+        if r < 0.35:
+            ks = rng.sample(["optional", "default", "range", "options", "inherit", "env", "string", "Optional", "DEFAULT",
+                             "user-id", "user_id", "userId", "User.Name", "a.b", "x-Y-z", "_", "k9", "json", "omitempty"], 4)
+            seen, fs = set(), []
+            for k in ks:
+                if k.lower() in seen:
+                    continue
+                seen.add(k.lower())
+                fs.append(F(k, P(rng.choice(["string", "int", "bool"])), rng.choice([None, O(opt=True)])))
+            return St(*fs)
+        if r < 0.6:
+            return St(F("Host", P("string")), F("Port", P("int"), O(opt=True)),
+                      F("Sub", St(F("host", P("string"), O(inherit=True)), F("name", P("string"))), rng.choice([None, O(opt=True)])),
+                      F("SubPtr", Ptr(St(F("port", P("int"), O(inherit=True, opt=True)), F("id", P("int")))), O(opt=True)))
+        if r < 0.8:
+            return St(F("port", P("int"), O(env="C17_TAGPORT")), F("name", P("string"), O(env="C17_TAGENV", opt=True)),
+                      F("zone", P("string"), O(env="C17_TAGUNSET", opt=True)), F("mode", P("string"), O(env="C17_TAGUNSET2", **{"def": "dev"})))
+        return St(F("tags", Sl(P("string")), O(**{"def": "[a,b]"})), F("nums", Sl(P("int")), O(opt=True, **{"def": "[1,2]"})),
+                  F("level", P("string"), O(options=["dev", "test"], **{"def": "dev"})))
 
     def leaf_scalar(self):
         return self.rng.choice([Nm("MyInt"), Nm("MyStr"), Nm("MyF64"), Nm("MyBool"), Nm("Alias"), P("dur"), P("num"),
@@ -1162,7 +1195,7 @@ class ShapeGen:
             pairs = []
             for f in flat_fields(t["f"]):
                 o = f.get("o")
-                if o is not None and (o["opt"] or o["def"] is not None) and rng.random() < 0.4:
+                if o is not None and (o["opt"] or o["def"] is not None or o.get("env") or o.get("inherit")) and rng.random() < 0.4:
                     continue
                 pairs.append((f["key"], self.value(f["t"])))
             rng.shuffle(pairs)
